@@ -2,15 +2,20 @@ use nom::{
     bytes::complete::tag,
     character::complete::{char, i128},
     combinator::{map, opt},
-    multi::{fold_many0, many0},
+    multi::many0,
     sequence::{preceded, terminated},
     Parser,
 };
 
+#[cfg(test)]
+use crate::lexer::error::ErrorTree;
+#[cfg(test)]
+use nom::multi::fold_many0;
+
 use crate::{
     input::Input,
     intermediate::{constraints::*, types::*, *},
-    lexer::{asn1_type, error::ErrorTree, parameterization},
+    lexer::{asn1_type, parameterization},
 };
 
 use super::{common::*, error::ParserResult};
@@ -75,6 +80,7 @@ fn enumeral(input: Input<'_>) -> ParserResult<'_, EnumeralInput<'_>> {
     .parse(input)
 }
 
+#[cfg(test)]
 fn enumerals<'a>(
     start_index: usize,
 ) -> impl Parser<Input<'a>, Output = Vec<Enumeral>, Error = ErrorTree<'a>> {
@@ -92,15 +98,59 @@ fn enumerals<'a>(
     )
 }
 
+/// Assigns the enumeration values of X.680 §20.3-20.6: explicit numbers are kept,
+/// identifier-only root items take successive unused values from 0, and an
+/// identifier-only addition takes the smallest value that is unused in the root
+/// and greater than all preceding additions.
+fn number_enumerals(
+    root: Vec<EnumeralInput<'_>>,
+    additions: Option<Vec<EnumeralInput<'_>>>,
+) -> (Vec<Enumeral>, Option<Vec<Enumeral>>) {
+    let to_enumeral = |(name, _, _, comments): &EnumeralInput<'_>, index: i128| Enumeral {
+        name: (*name).into(),
+        description: comments.map(|c| c.into()),
+        index,
+    };
+    let explicit: Vec<i128> = root.iter().filter_map(|e| e.1).collect();
+    let mut next = 0;
+    let mut root_enumerals = Vec::with_capacity(root.len());
+    for item in &root {
+        let index = item.1.unwrap_or_else(|| {
+            while explicit.contains(&next) {
+                next += 1;
+            }
+            next += 1;
+            next - 1
+        });
+        root_enumerals.push(to_enumeral(item, index));
+    }
+    let ext_enumerals = additions.map(|additions| {
+        let mut ext_enumerals = Vec::<Enumeral>::with_capacity(additions.len());
+        for item in &additions {
+            let index = item.1.unwrap_or_else(|| {
+                let mut candidate = ext_enumerals.last().map_or(0, |e| (e.index + 1).max(0));
+                while root_enumerals.iter().any(|e| e.index == candidate) {
+                    candidate += 1;
+                }
+                candidate
+            });
+            ext_enumerals.push(to_enumeral(item, index));
+        }
+        ext_enumerals
+    });
+    (root_enumerals, ext_enumerals)
+}
+
 fn enumerated_body(input: Input<'_>) -> ParserResult<'_, EnumeralBody> {
     in_braces(|input| {
-        let (input, root_enumerals) = enumerals(0).parse(input)?;
+        let (input, root) = many0(enumeral).parse(input)?;
         let (input, ext_marker) = opt(terminated(
             extension_marker,
             skip_ws_and_comments(opt(char(COMMA))),
         ))
         .parse(input)?;
-        let (input, ext_enumerals) = opt(enumerals(root_enumerals.len())).parse(input)?;
+        let (input, additions) = opt(many0(enumeral)).parse(input)?;
+        let (root_enumerals, ext_enumerals) = number_enumerals(root, additions);
         Ok((input, (root_enumerals, ext_marker, ext_enumerals)))
     })
     .parse(input)
